@@ -15,7 +15,7 @@ pub static DEF: CheckDef = CheckDef {
     id: "C13",
     families,
     run_case,
-    rule: "subsets: for n = 1..6 parameters EVERY subset holding a gradient (126 (n, subset) pairs, cycled) with random \
+    rule: "one GradientDescent object per case (half of the time first used on another list of the same length and other sizes); learning rates incl. 0 and negative ones; subsets: for n = 1..6 parameters EVERY subset holding a gradient (126 (n, subset) pairs, cycled) with random \
            shapes of rank 1..4 incl. unit dims; gradients installed through gradient_mut() or produced by real \
            backward passes (incl. broadcast parameters); learning rates {0, 2^-3, 0.25, 0.5, 1, 0.1, 0.37}; 1..4 \
            repeated updates with changing frozen subsets; parameters may be untracked handles. Expected values are \
